@@ -62,10 +62,6 @@ def handleG (ws : List String) : Option String := do
   if a.length != m * k || b.length != k * n then none
   let preA := pre % 2 == 1
   let preB := pre / 2 % 2 == 1
-  -- `prepack_a` divides by the depth block size (0 when K = 0) and chunks by the packed layout
-  -- size (0 when M = 0); likewise `prepack_b` for K = 0 / N = 0: both panic (open finding).
-  if (preA && (m == 0 || k == 0)) || (preB && (n == 0 || k == 0)) then
-    return "panic"
   let kern := if kernS == "generic" then Kern.generic else Kern.simd
   -- depth block size: `depth_block_size::<i8>` = min(1024, K) for gemm; gemv chunks K by 512 if
   -- B has unit row stride, else by 8.
